@@ -31,8 +31,10 @@ type kase struct {
 // a0,b0 (both nonce n), a1 (n+1), a2 (n+2); r = request-id transaction of S with a
 // nonce far ahead (not nonce-checked); d = another object with the hash of a1 (the
 // hash does not cover RequestId/SocketRequestId) that is not nonce-checked.
-// thorough adds t0, an in-sequence transaction of a second sender.
-func bfsUniverse(tier string) (*pool.Universe, pool.Gen, int, int) {
+// The "thorough" universe adds t0, an in-sequence transaction of a second sender, a third
+// pack state and evicted subsets of two.  The last result is the BFS level at which the
+// frontier is split over the worker processes.
+func bfsUniverse(tier string) (*pool.Universe, pool.Gen, int) {
 	const n, m = 5, 3
 	specs := []pool.TxSpec{
 		{Name: "a0", Sender: 0, Off: 0, Data: "a", Signed: true},
@@ -46,11 +48,11 @@ func bfsUniverse(tier string) (*pool.Universe, pool.Gen, int, int) {
 		specs = append(specs, pool.TxSpec{Name: "t0", Sender: 1, Off: 0, Data: "t", Signed: true})
 		nonces := [][]uint64{{n, m}, {n + 1, m}, {n + 2, m + 1}}
 		u := pool.NewUniverse("bfs:thorough", 2, []uint64{n, m}, nonces, specs)
-		return u, pool.Gen{NK: 3, MaxEvict: 2, EvictAll: true, Remote: []int{1, 5}}, 9, 3
+		return u, pool.Gen{NK: 3, MaxEvict: 2, EvictAll: true, Remote: []int{1, 5}}, 3
 	}
 	nonces := [][]uint64{{n}, {n + 1}}
 	u := pool.NewUniverse("bfs:quick", 1, []uint64{n}, nonces, specs)
-	return u, pool.Gen{NK: 2, MaxEvict: 1, EvictAll: true, Remote: []int{1, 5}}, 8, 3
+	return u, pool.Gen{NK: 2, MaxEvict: 1, EvictAll: true, Remote: []int{1, 5}}, 3
 }
 
 // limitUniverse: n transactions of one shape; state 0 = before any block, state 1 =
@@ -254,7 +256,7 @@ func outcome(op pool.Op, obs pool.Obs, npendBefore int) string {
 	return op.Kind
 }
 
-func bfs(c *fw.Ctx, env *pool.Env, gen pool.Gen, depth, shardAt int) {
+func bfs(c *fw.Ctx, env *pool.Env, gen pool.Gen, depth, shardAt int, label string) {
 	u := env.U
 	visited := map[[16]byte]struct{}{}
 	root := bnode{ref: pool.NewRef(u)}
@@ -274,10 +276,6 @@ func bfs(c *fw.Ctx, env *pool.Env, gen pool.Gen, depth, shardAt int) {
 			c.Count(k, v)
 		}
 	}()
-	label := ""
-	if i := strings.Index(u.Name, "@"); i > 0 {
-		label = "_height" + u.Name[i+1:]
-	}
 	samples := 0
 	for lvl := 0; lvl < depth && len(frontier) > 0; lvl++ {
 		counting := lvl >= shardAt || c.Shard == 0 // the unsharded preamble is counted once
@@ -293,7 +291,7 @@ func bfs(c *fw.Ctx, env *pool.Env, gen pool.Gen, depth, shardAt int) {
 		var next []bnode
 		for ni, nd := range frontier {
 			if ni%64 == 0 && c.Expired() {
-				c.Cap(fmt.Sprintf("time cap inside BFS level %d (histories of length %d)", lvl, lvl+1))
+				c.Cap(fmt.Sprintf("time cap in %s inside BFS level %d (histories of length %d)", u.Name, lvl, lvl+1))
 				return
 			}
 			for _, op := range nd.ref.Enabled(gen) {
@@ -413,36 +411,59 @@ func limits(c *fw.Ctx) {
 
 // ---------------------------------------------------------------------------------
 
+// pass is one BFS exploration: a universe, a fork configuration (block height) and a depth.
+type pass struct {
+	universe string // "quick" (6 transactions, 1 sender) | "thorough" (7 transactions, 2 senders, more pack states and evictions)
+	height   uint64
+	depth    int
+}
+
+func passes(tier string) []pass {
+	if tier == "thorough" {
+		return []pass{
+			{"thorough", 20, 8},
+			{"quick", 20, 10},
+			{"quick", 11, 7}, // height 11: proposal 023 (same-nonce tie-break by hash) not yet active, 021 ordering
+		}
+	}
+	return []pass{{"quick", 20, 8}}
+}
+
 func run(c *fw.Ctx) {
 	if err := pool.Boot(); err != nil {
 		panic(err)
 	}
-	u, gen, depth, shardAt := bfsUniverse(c.Tier)
-	if v := os.Getenv("C17_DEPTH"); v != "" { // calibration knob; the depth used is recorded in the evidence
-		fmt.Sscan(v, &depth)
-	}
-	if v := os.Getenv("C17_SHARDAT"); v != "" { // calibration knob: BFS level at which the frontier is split over the workers
-		fmt.Sscan(v, &shardAt)
-	}
-	env := pool.NewEnv(u)
-	if err := env.VerifySigned(); err != nil {
-		panic("harness: " + err.Error())
-	}
-	c.Note("bfs_depth", depth)
-	c.Note("bfs_universe", fmt.Sprintf("%d transactions / %d hashes, %d pack states", u.N(), u.NH(), gen.NK))
 	t0 := time.Now()
 	deferred = []func(){}
 	limits(c)
 	t1 := time.Now()
-	bfs(c, env, gen, depth, shardAt)
-	if c.Thorough() && !c.Expired() {
-		// second fork configuration: height 11 = proposal 023 (same-nonce tie-break by hash) not yet active
-		pool.SetHeight(11)
-		u2, gen2, _, _ := bfsUniverse("quick")
-		u2.Name = "bfs:quick@11"
-		bfs(c, pool.NewEnv(u2), gen2, 7, shardAt)
-		pool.SetHeight(20)
+	var desc []string
+	for pi, ps := range passes(c.Tier) {
+		if v := os.Getenv("C17_DEPTH"); v != "" && pi == 0 { // calibration knob; the depth used is recorded in the evidence
+			fmt.Sscan(v, &ps.depth)
+		}
+		pool.SetHeight(ps.height)
+		u, gen, shardAt := bfsUniverse(ps.universe)
+		if v := os.Getenv("C17_SHARDAT"); v != "" { // calibration knob: BFS level at which the frontier is split over the workers
+			fmt.Sscan(v, &shardAt)
+		}
+		if ps.height != 20 {
+			u.Name += fmt.Sprintf("@%d", ps.height)
+		}
+		env := pool.NewEnv(u)
+		if err := env.VerifySigned(); err != nil {
+			panic("harness: " + err.Error())
+		}
+		desc = append(desc, fmt.Sprintf("%s: %d transactions / %d hashes / %d senders, %d pack states, evicted subsets <= %d, height %d, depth %d",
+			u.Name, u.N(), u.NH(), len(u.Senders), gen.NK, gen.MaxEvict, ps.height, ps.depth))
+		label := ""
+		if pi > 0 {
+			label = "_" + strings.TrimPrefix(u.Name, "bfs:")
+		}
+		bfs(c, env, gen, ps.depth, shardAt, label)
 	}
+	pool.SetHeight(20)
+	c.Note("bfs_passes", desc)
 	for _, f := range deferred {
 		f()
 	}
@@ -452,7 +473,6 @@ func run(c *fw.Ctx) {
 		runtime.ReadMemStats(&ms)
 		c.Note("shard0_goroutines_at_end", runtime.NumGoroutine())
 		c.Note("shard0_heap_mb", ms.HeapAlloc>>20)
-		c.Note("shard0_sys_mb", ms.Sys>>20)
 		c.Note("shard0_limit_s", t1.Sub(t0).Seconds())
 		c.Note("shard0_bfs_s", time.Since(t1).Seconds())
 	}
@@ -469,7 +489,7 @@ func envFor(name string) (*pool.Env, bool) {
 			pool.SetHeight(h)
 			tier = tier[:i]
 		}
-		u, _, _, _ := bfsUniverse(tier)
+		u, _, _ := bfsUniverse(tier)
 		u.Name = name
 		return pool.NewEnv(u), false
 	case "limit":
